@@ -25,7 +25,7 @@ import time
 
 from vf.core import Check, REPO, HarnessError, lean_str, lean_bool
 
-MODULES = ["Model.Str", "Proofs.Str", "Proofs.StrFast", "Proofs.Comment", "Generated.C04", "Properties.C04"]
+MODULES = ["Model.Str", "Model.StrLex", "Proofs.Str", "Proofs.StrFast", "Proofs.Comment", "Proofs.StrLex", "Generated.C04", "Properties.C04"]
 P = "SqlglotModel.Properties.C04."
 THEOREMS = [P + n for n in [
     "string_roundtrip",
@@ -35,6 +35,19 @@ THEOREMS = [P + n for n in [
     "identifier_roundtrip",
     "sanitize_no_marker",
     "comment_scan_exact",
+    "literal_single_token",
+    "identifier_single_token",
+    "literal_boundary",
+    "identifier_boundary",
+    "boundary_compose",
+    "opaque_boundary",
+    "comment_transparent",
+    "maybe_comment_transparent",
+    "raw_roundtrip",
+    "byte_roundtrip_partial",
+    "byte_backslash_counterexample",
+    "generated_dispatch",
+    "generated_wf_byte_raw",
     "generated_wf",
     "generated_wf_fast",
     "generated_comment_tables",
@@ -156,27 +169,11 @@ class Shape(Exception):
     pass
 
 
-def str_cfg(core, gen, kind: str) -> tuple:
-    """(startOk, cfg-dict) for one (tokenizer core, generator object) pairing; kind in {"str", "id"}."""
-    d = gen.dialect
-    if kind == "str":
-        g_start, g_end, g_escd = d.QUOTE_START, d.QUOTE_END, gen._escaped_quote_end
-        table, escapes = core.quotes, set(core.string_escapes)
-        supports = bool(d.STRINGS_SUPPORT_ESCAPED_SEQUENCES)
-    else:
-        g_start, g_end, g_escd = gen._identifier_start, gen._identifier_end, gen._escaped_identifier_end
-        table = core.identifiers
-        supports = False
-    if not (one(g_start) and one(g_end) and one(g_escd, 2)):
-        raise Shape(f"{kind}: generator delimiters are not (1 char, 1 char, 2 chars): {g_start!r} {g_end!r} {g_escd!r}")
-    t_end = table.get(g_start)
-    start_ok = one(t_end)
-    q = t_end if start_ok else g_end
-    if kind == "id":
-        escapes = set(core.identifier_escapes) | {q}
+def tok_fields(core, q: str, escapes) -> dict:
+    """the tokenizer-side tables of one `_extract_string` instantiation"""
     for e in escapes:
         if not one(e):
-            raise Shape(f"{kind}: multi-character escape {e!r}")
+            raise Shape(f"multi-character escape {e!r}")
     unesc = []
     for k, v in core.unescaped_sequences.items():
         if len(k) != 2:
@@ -184,24 +181,64 @@ def str_cfg(core, gen, kind: str) -> tuple:
         if not one(v):
             raise Shape(f"unescaped sequence {k!r} maps to {v!r} (not one character)")
         unesc.append((k[0], k[1], v))
-    seq = []
-    for k, v in d.ESCAPED_SEQUENCES.items():
-        if not one(k) or not one(v, 2):
-            raise Shape(f"ESCAPED_SEQUENCES entry {k!r}: {v!r} is not 1 char -> 2 chars")
-        seq.append((k, v[0], v[1]))
-    cfg = {
+    return {
         "q": q,
         "escapes": sorted(escapes),
         "quotes": sorted(k for k in core.quotes if len(k) == 1),
         "follow": sorted(core.escape_follow_chars),
         "unesc": sorted(unesc),
+    }
+
+
+def gen_fields(gen, kind: str) -> dict:
+    """the generator-side tables; kind in {"str", "id", "byte"}"""
+    d = gen.dialect
+    if kind == "str":
+        g_start, g_end, g_escd = d.QUOTE_START, d.QUOTE_END, gen._escaped_quote_end
+        supports = bool(d.STRINGS_SUPPORT_ESCAPED_SEQUENCES)
+    elif kind == "byte":
+        g_start, g_end, g_escd = d.BYTE_START, d.BYTE_END, gen._escaped_byte_quote_end
+        supports = bool(d.BYTE_STRINGS_SUPPORT_ESCAPED_SEQUENCES)
+    else:
+        g_start, g_end, g_escd = gen._identifier_start, gen._identifier_end, gen._escaped_identifier_end
+        supports = False
+    if not (isinstance(g_start, str) and 1 <= len(g_start) <= 3 and one(g_end) and one(g_escd, 2)):
+        raise Shape(f"{kind}: generator delimiters are not (1-3 chars, 1 char, 2 chars): {g_start!r} {g_end!r} {g_escd!r}")
+    if kind != "byte" and not one(g_start):
+        raise Shape(f"{kind}: generator start delimiter {g_start!r} is not one character")
+    seq = []
+    if kind != "id":
+        for k, v in d.ESCAPED_SEQUENCES.items():
+            if not one(k) or not one(v, 2):
+                raise Shape(f"ESCAPED_SEQUENCES entry {k!r}: {v!r} is not 1 char -> 2 chars")
+            seq.append((k, v[0], v[1]))
+    return {
         "gq": g_end,
         "esc0": g_escd[0],
         "esc1": g_escd[1],
-        "escSeq": sorted(seq) if kind == "str" else [],
+        "escSeq": sorted(seq),
         "supports": supports,
+        "genBsEsc": "\\" in d.tokenizer_class.STRING_ESCAPES,
         "start": g_start,
     }
+
+
+def str_cfg(core, gen, kind: str) -> tuple:
+    """(startOk, cfg-dict) for one (tokenizer core, generator object) pairing; kind in {"str", "id", "byte"}."""
+    g = gen_fields(gen, kind)
+    if kind == "str":
+        t_end, escapes = core.quotes.get(g["start"]), set(core.string_escapes)
+    elif kind == "byte":
+        fs = core.format_strings.get(g["start"])
+        t_end = fs[0] if fs and fs[1].name == "BYTE_STRING" else None
+        escapes = set(core.byte_string_escapes)
+    else:
+        t_end, escapes = core.identifiers.get(g["start"]), None
+    start_ok = one(t_end)
+    q = t_end if start_ok else g["gq"]
+    if kind == "id":
+        escapes = set(core.identifier_escapes) | {q}
+    cfg = dict(tok_fields(core, q, escapes), **g)
     return start_ok, cfg
 
 
@@ -209,9 +246,83 @@ def cfg_lean(cfg: dict) -> str:
     unesc = "[" + ", ".join(f"(({ch(a)}, {ch(b)}), {ch(v)})" for a, b, v in cfg["unesc"]) + "]"
     seq = "[" + ", ".join(f"({ch(k)}, ({ch(a)}, {ch(b)}))" for k, a, b in cfg["escSeq"]) + "]"
     return ("{ q := %s, escapes := %s, quotes := %s, follow := %s, unesc := %s, gq := %s, esc0 := %s, esc1 := %s, "
-            "escSeq := %s, supports := %s }" % (ch(cfg["q"]), chars(cfg["escapes"]), chars(cfg["quotes"]), chars(cfg["follow"]),
-                                                 unesc, ch(cfg["gq"]), ch(cfg["esc0"]), ch(cfg["esc1"]), seq,
-                                                 lean_bool(cfg["supports"])))
+            "escSeq := %s, supports := %s, genBsEsc := %s }" % (
+                ch(cfg["q"]), chars(cfg["escapes"]), chars(cfg["quotes"]), chars(cfg["follow"]),
+                unesc, ch(cfg["gq"]), ch(cfg["esc0"]), ch(cfg["esc1"]), seq, lean_bool(cfg["supports"]),
+                lean_bool(cfg["genBsEsc"])))
+
+
+def trie_keys(trie, prefix=""):
+    for k, v in trie.items():
+        if k == 0:
+            yield prefix
+        else:
+            yield from trie_keys(v, prefix + k)
+
+
+KIND_OF = {"NATIONAL_STRING": "national", "BYTE_STRING": "byte", "RAW_STRING": "raw", "UNICODE_STRING": "unicode",
+           "HEX_STRING": "hex", "BIT_STRING": "bit", "HEREDOC_STRING": "heredoc"}
+
+
+def lex_cfg(core, gen_s, gen_i, byte_cfg) -> dict:
+    """the dispatch tables of one tokenizer core (Model/StrLex.lean: LexCfg), cfgs as dicts"""
+    gs = gen_fields(gen_s, "str")
+    gi = gen_fields(gen_i, "id")
+    idents = []
+    for st, en in sorted(core.identifiers.items()):
+        if not (one(st) and one(en)):
+            raise Shape(f"identifier delimiters {st!r} {en!r} are not single characters")
+        idents.append((st, dict(tok_fields(core, en, set(core.identifier_escapes) | {en}), **gi)))
+    starts = []
+    for st, en in sorted(core.quotes.items()):
+        if not en:
+            raise Shape(f"quote {st!r} has an empty end")
+        starts.append((st, "str", en, False, dict(tok_fields(core, en[0], set(core.string_escapes)), **gs)))
+    for st, (en, ty) in sorted(core.format_strings.items()):
+        kind = KIND_OF.get(ty.name)
+        if kind is None:
+            raise Shape(f"format string {st!r} has unknown token type {ty.name}")
+        if kind == "byte":
+            base = byte_cfg if byte_cfg is not None else gs
+            cfg = dict(tok_fields(core, en[0] if en else "'", set(core.byte_string_escapes)),
+                       **{k: base[k] for k in ("gq", "esc0", "esc1", "escSeq", "supports", "genBsEsc", "start")})
+        else:
+            cfg = dict(tok_fields(core, en[0] if en else "'", set(core.string_escapes)), **gs)
+        if not en:
+            kind = "hex" if kind not in ("hex", "bit") else kind  # `0x` style: handled by _scan_number, never by _scan_string
+        starts.append((st, kind, en or "?", kind == "raw", cfg))
+    allkeys = sorted(set(trie_keys(core.keyword_trie)))
+    R = {k.upper() for k in list(core.quotes) + list(core.format_strings) + list(core.comments)}
+    keys = [k for k in allkeys if any(k.startswith(r) for r in R)]
+    for k in keys:
+        if any(c.isspace() for c in k):
+            raise Shape(f"trie key {k!r} extending a quote/comment start contains whitespace")
+    singles = sorted(k for k in core.single_tokens if len(k) == 1)
+    if any(len(k) != 1 for k in core.single_tokens):
+        raise Shape("a SINGLE_TOKENS key is not one character")
+    return {
+        "identifiers": idents,
+        "keys": keys,
+        "strStarts": starts,
+        "comments": sorted((k, v or "") for k, v in core.comments.items()),
+        "nested": bool(core.nested_comments),
+        "rawEsc": bool(core.string_escapes_allowed_in_raw_strings),
+        "singles": singles,
+        "varSingles": sorted(core.var_single_tokens),
+    }
+
+
+def national_start(dia, gen_s) -> str:
+    """what `exp.National(v).sql()` writes in front of the escaped value ("" when it is not prefix + quoted value)"""
+    _, exp, *_ = sg()
+    try:
+        out = dia.generate(exp.National(this="x"))
+    except Exception:  # noqa
+        return ""
+    qe = gen_s.dialect.QUOTE_END
+    if out.endswith("x" + qe) and 1 <= len(out) - 2 <= 3:
+        return out[:-2]
+    return ""
 
 
 def ast_shapes(chk: Check) -> dict:
@@ -260,6 +371,21 @@ def ast_shapes(chk: Check) -> dict:
                 out["open"], out["close"] = const(node.values[0]), const(node.values[2])
                 inner = ast.unparse(node.values[1].value)
                 out["commentSanitized"] = inner == "self._replace_line_breaks(self.sanitize_comment(comment))"
+    f = fns.get("maybe_comment")
+    out["mcPlain"] = False
+    out["mcConsts"] = []
+    if f:
+        consts = set()
+        for node in ast.walk(f):
+            c = const(node)
+            if c is not None:
+                consts.add(c)
+        if ast.get_docstring(f):
+            consts.discard(ast.get_docstring(f, clean=False))
+        out["mcConsts"] = sorted(consts)
+        rets = [n for n in ast.walk(f) if isinstance(n, ast.Return)]
+        out["mcPlain"] = bool(rets) and isinstance(f.body[-1], ast.Return) and \
+            ast.unparse(f.body[-1].value).replace('"', "'") == "f'{sql} {' '.join(comments_list)}'"
     f = fns.get("identifier_sql")
     if f:
         for node in ast.walk(f):
@@ -280,17 +406,30 @@ def translate(chk: Check) -> str:
     lines = [
         "-- GENERATED by vf/props/c04.py from the live tokenizer cores / generator objects of every dialect and the ast of",
         "-- sqlglot/generator.py. Do not edit.",
-        "import SqlglotModel.Model.Str",
+        "import SqlglotModel.Model.StrLex",
         "namespace SqlglotModel.Generated.C04",
         "open SqlglotModel.Str",
         "",
     ]
     entries = []
     table: dict = {}
+    cfg_names: dict = {}
+    cfg_defs: list = []
+
+    def cname(cfg: dict) -> str:
+        key = cfg_lean(cfg)
+        if key not in cfg_names:
+            cfg_names[key] = f"cfg{len(cfg_names)}"
+            cfg_defs.append(f"def {cfg_names[key]} : Cfg := {key}")
+        return cfg_names[key]
+
+    def lstr(x: str) -> str:
+        return chars(x)
+
     for name in dialect_names():
         L = live(name)
         label = name or "base"
-        rec = {"str": [], "id": [], "com": []}
+        rec = {"str": [], "id": [], "byte": [], "com": [], "lex": []}
         try:
             for kind, gk in (("str", "gen_str"), ("id", "gen_id")):
                 gen = L[gk]
@@ -298,22 +437,48 @@ def translate(chk: Check) -> str:
                     raise Shape(f"{kind}: no generator object / tokenizer core observed")
                 for core in L["cores"][kind]:
                     rec[kind].append(str_cfg(core, gen, kind))
+            has_byte = bool(L["gen_str"].dialect.BYTE_START)
+            for core in L["cores"]["str"]:
+                bc = str_cfg(core, L["gen_str"], "byte") if has_byte else None
+                if bc is not None:
+                    rec["byte"].append(bc)
+                rec["lex"].append(lex_cfg(core, L["gen_str"], L["gen_id"], bc[1] if bc else None))
             if L["gen_com"] is None or not L["cores"]["com"]:
                 raise Shape("comment: no generator object / tokenizer core observed")
             for core in L["cores"]["com"]:
                 rec["com"].append((core.comments.get("/*") == "*/", bool(core.nested_comments)))
+            rec["strStart"] = rec["str"][0][1]["start"]
+            rec["idStart"] = rec["id"][0][1]["start"]
+            rec["natStart"] = national_start(L["dialect"], L["gen_str"])
+            rec["byteStart"] = rec["byte"][0][1]["start"] if rec["byte"] else ""
         except Shape as e:
             chk.broken.append({"kind": "translator", "what": f"C04 translator: structure changed ({label}): {e}"})
             continue
-        except AttributeError as e:
+        except (AttributeError, TypeError, KeyError) as e:
             chk.broken.append({"kind": "translator", "what": f"C04 translator: structure changed ({label}): {e!r}"})
             continue
         table[label] = rec
         parts = []
-        for kind in ("str", "id"):
-            parts.append("[" + ", ".join(f"({lean_bool(ok)}, {cfg_lean(cfg)})" for ok, cfg in rec[kind]) + "]")
+        for kind in ("str", "id", "byte"):
+            parts.append("[" + ", ".join(f"({lean_bool(ok)}, {cname(cfg)})" for ok, cfg in rec[kind]) + "]")
         com = "[" + ", ".join(f"({lean_bool(a)}, {lean_bool(b)})" for a, b in rec["com"]) + "]"
-        entries.append(f"  {{ name := {lean_str(label)},\n    strCfgs := {parts[0]},\n    idCfgs := {parts[1]},\n    comments := {com} }}")
+        lex = []
+        for lc in rec["lex"]:
+            idents = "[" + ", ".join(f"({ch(st)}, {cname(c)})" for st, c in lc["identifiers"]) + "]"
+            keys = "[" + ", ".join(lstr(k) for k in lc["keys"]) + "]"
+            starts = "[" + ", ".join(
+                f"({lstr(st)}, {{ kind := .{kind}, delim := {lstr(en)}, raw := {lean_bool(raw)}, cfg := {cname(c)} }})"
+                for st, kind, en, raw, c in lc["strStarts"]) + "]"
+            coms = "[" + ", ".join(f"({lstr(a)}, {lstr(b)})" for a, b in lc["comments"]) + "]"
+            lex.append(f"{{\n        identifiers := {idents},\n        keys := {keys},\n        strStarts := {starts},\n        comments := {coms},\n"
+                       f"        nested := {lean_bool(lc['nested'])}, rawEsc := {lean_bool(lc['rawEsc'])}, singles := {chars(lc['singles'])}, "
+                       f"varSingles := {chars(lc['varSingles'])} }}")
+        entries.append(f"  {{ name := {lean_str(label)},\n    strCfgs := {parts[0]},\n    idCfgs := {parts[1]},\n    byteCfgs := {parts[2]},\n"
+                       f"    comments := {com},\n    lex := [\n      " + ",\n      ".join(lex) + "],\n"
+                       f"    strStart := {lstr(rec['strStart'])}, idStart := {lstr(rec['idStart'])}, natStart := {lstr(rec['natStart'])}, "
+                       f"byteStart := {lstr(rec['byteStart'])} }}")
+    lines += cfg_defs
+    lines.append("")
     lines.append("def dialects : List DialectEntry := [")
     lines.append(",\n".join(entries))
     lines.append("]")
@@ -327,8 +492,11 @@ def translate(chk: Check) -> str:
     lines.append(f"def identifierReplaceShape : Bool := {lean_bool(sh['identReplace'])}")
     lines.append(f"def identifierEscapeDoubles : Bool := {lean_bool(sh['escIdDoubles'])}")
     lines.append(f"def escapeStrReplaceLast : Bool := {lean_bool(sh['escReplaceLast'])}")
+    lines.append(f"def maybeCommentPlainForm : Bool := {lean_bool(sh['mcPlain'])}")
+    lines.append("def maybeCommentConstants : List String := [" + ", ".join(lean_str(c) for c in sh["mcConsts"]) + "]")
     lines.append("end SqlglotModel.Generated.C04")
     chk.cov["dialects_translated"] = len(entries)
+    chk.cov["distinct_cfgs"] = len(cfg_defs)
     chk.cov["ast_shapes"] = sh
     chk._c04_table = table
     return "\n".join(lines) + "\n"
@@ -468,6 +636,19 @@ def correspond(chk: Check) -> list:
                         lines.append(json.dumps({"op": "ident", **ref, "v": cps(v)}))
                     expect.append(show_cps(real))
                     meta.append(("escape", label, kind, k, v))
+                    if kind == "str" and len(v) <= 12:
+                        _, exp, *_ = sg()
+                        out = gen.rawstring_sql(exp.RawString(this=v))
+                        lines.append(json.dumps({"op": "rawsql", **ref, "v": cps(v)}))
+                        expect.append(show_cps(out[1:-1]))
+                        meta.append(("rawstring_sql", label, kind, k, v))
+                        if rec["byte"] and rec["byte"][k][0]:
+                            bd = gen.dialect
+                            out = gen.escape_str(v, escape_backslash=False, delimiter=bd.BYTE_END,
+                                                 escaped_delimiter=gen._escaped_byte_quote_end, is_byte_string=True)
+                            lines.append(json.dumps({"op": "bytesql", "d": label, "kind": "byte", "k": k, "v": cps(v)}))
+                            expect.append(show_cps(out))
+                            meta.append(("bytestring escape", label, "byte", k, v))
                     chk.case(("e", key, v), nontrivial=real != v)
                     chk.count("escape:" + ("changed" if real != v else "identity"))
         # comments
@@ -488,6 +669,12 @@ def correspond(chk: Check) -> list:
                 meta.append(("scanc", label, "com", k, b))
                 chk.count("scanc:" + r.split(" ")[0])
                 chk.case(("c", nested, b), nontrivial="*" in b or "/" in b)
+                if b and k == 0 and rng.random() < 0.3:
+                    cs = [b, "", rand_text(rng, calpha, 5)][: rng.randint(1, 3)]
+                    sp = "".join(sorted(set(c for x in cs for c in x if not c.strip())))
+                    lines.append(json.dumps({"op": "mc", "sp": cps(sp), "sql": cps("x"), "cs": [cps(x) for x in cs]}))
+                    expect.append(show_cps(gen.maybe_comment("x", comments=cs)))
+                    meta.append(("maybe_comment", label, "com", k, cs))
                 if b and k == 0:
                     lines.append(json.dumps({"op": "san", "sp": cps("".join(sorted(set(c for c in b if not c.strip())))), "c": cps(b)}))
                     expect.append(show_cps(gen.sanitize_comment(b)))
@@ -513,6 +700,99 @@ def correspond(chk: Check) -> list:
     return hints
 
 
+REAL_KIND = {"STRING": "str", "NATIONAL_STRING": "national", "BYTE_STRING": "byte", "RAW_STRING": "raw", "UNICODE_STRING": "unicode",
+             "HEX_STRING": "hex", "BIT_STRING": "bit", "HEREDOC_STRING": "heredoc", "IDENTIFIER": "ident"}
+SAFE_WORDS = ["a", "b", "foo", "x1", "k_2", "zz", "n", "r", "e", "N", "B", "X", "u"]
+
+
+def real_lex(core, sql: str) -> str:
+    try:
+        toks = core.tokenize(sql)
+    except Exception:  # noqa
+        return "err"
+    return "ok " + ";".join(REAL_KIND.get(t.token_type.name, "other") + ":" + show_cps(t.text) for t in toks)
+
+
+def rand_lex_input(rng, lc: dict, wide: list) -> str:
+    """a statement-like text: literals of every start key, identifiers, comments, safe words, numbers, punctuation"""
+    out = []
+    special = ["'", '"', "`", "\\", "]", "\n", " ", "a", "n", "%", "*", "/", "$"]
+    for _ in range(rng.randint(1, 6)):
+        r = rng.random()
+        if r < 0.4 and lc["strStarts"]:
+            st, kind, en, raw, cfg = rng.choice(lc["strStarts"])
+            if kind in ("hex", "bit", "heredoc") and rng.random() < 0.8:
+                st, kind, en, raw, cfg = lc["strStarts"][0]
+            body = rand_text(rng, special + list(en) if rng.random() < 0.7 else wide, 8)
+            piece = st + body + (en if rng.random() < 0.85 else "")
+        elif r < 0.55 and lc["identifiers"]:
+            st, cfg = rng.choice(lc["identifiers"])
+            piece = st + rand_text(rng, special + [cfg["q"]], 6) + (cfg["q"] if rng.random() < 0.85 else "")
+        elif r < 0.7:
+            body = rand_text(rng, ["/", "*", " ", "a", "+", "\n", "-"], 8)
+            piece = rng.choice(["/*" + body + "*/", "/* " + body + " */", "--" + body.replace("\n", " ") + "\n", "/*" + body])
+        elif r < 0.85:
+            piece = rng.choice(SAFE_WORDS)
+        elif r < 0.93:
+            piece = str(rng.randint(0, 999))
+        else:
+            piece = rng.choice([",", "(", ")", "="])
+        out.append(piece)
+        out.append(rng.choice([" ", " ", " ", "", "\n", "\t", "  ", "\xa0"]))
+    return "".join(out)
+
+
+def correspond_lex(chk: Check) -> None:
+    """token level: the dispatch model (Model/StrLex.lean, generated tables) vs TokenizerCore.tokenize (type + text)"""
+    rng = chk.rng
+    lines, expect, meta = [], [], []
+    n_rand = chk.pick(120, 1500)
+    seen = set()
+    for label, rec in chk._c04_table.items():
+        L = live("" if label == "base" else label)
+        for k, lc in enumerate(rec["lex"]):
+            core = L["cores"]["str"][k]
+            key = json.dumps(lc, sort_keys=True)
+            inputs = []
+            if key not in seen:
+                seen.add(key)
+                # every start key with small bodies, followed by each kind of neighbour
+                for st, kind, en, raw, cfg in lc["strStarts"]:
+                    for body in ["", "a", en[:1], "\\", "a" + en[:1] * 2 + "b", "\\" + en[:1], en[:1] * 2, "a\\\\", "\\n"]:
+                        for tail in [" ", "", ",", " a", en[:1], "\n", ")"]:
+                            inputs.append(st + body + en + tail)
+                for st, cfg in lc["identifiers"]:
+                    for body in ["", "a", cfg["q"] * 2, "\\", "a" + cfg["q"] * 2]:
+                        for tail in [" ", "", ".", " a", ","]:
+                            inputs.append(st + body + cfg["q"] + tail)
+                for body in ["", " ", " a ", " * ", "/", "*", " /* x */ ", " /* ", "+ h ", " a*", " a/", "\n+"]:
+                    for pre in ["a ", "", "1 ", "'s' "]:
+                        inputs.append(pre + "/*" + body + "*/ b")
+            wide = BASE_ALPHA
+            for _ in range(n_rand):
+                inputs.append(rand_lex_input(rng, lc, wide))
+            for _ in range(n_rand // 4):
+                inputs.append(rand_text(rng, wide, 12))
+            for sql in inputs:
+                lines.append(json.dumps({"op": "lex", "d": label, "k": k, "sp": cps("".join(sorted(set(c for c in sql if c.isspace())))),
+                                         "s": cps(sql)}))
+                expect.append(real_lex(core, sql))
+                meta.append((label, k, sql))
+    got = chk.driver("C04", lines)
+    n_unsup = 0
+    for g, e, (label, k, sql) in zip(got, expect, meta):
+        if g == "unsupported":
+            n_unsup += 1
+            chk.count("lex:unsupported")
+            continue
+        chk.corr_cases += 1
+        chk.count("lex:" + e.split(" ")[0])
+        chk.case(("lex", label, k, sql), nontrivial=e != "ok ")
+        if g != e:
+            chk.correspondence_broken(f"lex ({label}, pass {k})", {"dialect": label, "pass": k, "input": sql, "model": g, "impl": e})
+    chk.cov["lex_correspondence"] = {"inputs": len(lines), "outside_model_fragment": n_unsup}
+
+
 def validate_char_assumptions(chk: Check) -> None:
     """CPython facts the model takes as hypotheses: `/` and `*` are not blank; no escape / delimiter / comment character
     is alphanumeric (so `_advance(alnum=True)` never skips over a character the loops test for)."""
@@ -525,6 +805,16 @@ def validate_char_assumptions(chk: Check) -> None:
                 for c in [cfg["q"]] + cfg["escapes"]:
                     if c.isalnum():
                         bad.append((label, kind, c))
+    for label, rec in chk._c04_table.items():
+        for lc in rec["lex"]:
+            for key in lc["keys"]:
+                if key.startswith("/*") and len(key) > 2:
+                    e = key[2]
+                    if e.isspace() or e.lower().isspace():
+                        bad.append((label, "blank character reaches trie key", key))
+            for st in (rec["strStart"], rec["idStart"], rec["natStart"], rec["byteStart"]):
+                if st and st[0].isspace():
+                    bad.append((label, "blank start", st))
     if "/".isalnum() or "*".isalnum():
         bad.append(("comment", "", "/*"))
     chk.cov["alnum_skip_assumption"] = {"checked": True, "violations": bad}
@@ -1024,6 +1314,7 @@ def run(chk: Check) -> None:
     hints = []
     try:
         hints = correspond(chk)
+        correspond_lex(chk)
     except HarnessError as e:
         if proved:
             raise
